@@ -194,7 +194,7 @@ func unknownKeyFor(t *rapid.T, k *compKind, n *schemaNode) string {
 			if len(o.Path) == 0 {
 				continue
 			}
-			if c := last(o.Path); !isAccepted(c) {
+			if c := last(o.Path); c != listElem && !isAccepted(c) {
 				cands = append(cands, c)
 			}
 		}
